@@ -58,6 +58,8 @@ const (
 	c18KTuple
 	c18KFunc
 	c18KFindFn   // the method value <receiver>.Tags.Find
+	c18KSlice    // a slice or array built by a composite literal: elems
+	c18KStruct   // a struct built by a composite literal: cl, evaluated in fr
 	c18KMap      // a map whose contents are one composite literal (lookup table)
 	c18KFuncDecl // a declared function of the package used as a value
 )
@@ -123,7 +125,13 @@ type c18Scen struct {
 	cond   string            // the entry's condition kind
 	p      bool              // the search index equals len(values) (value greater than every element)
 	q      bool              // values[index] == value (only meaningful when !p)
+	// the witness list behind p and q: ll strictly ascending elements e0 < e1 < ...; rk of them are smaller than
+	// the value (the lower bound / sort.SearchStrings result); q says e[rk] == value. p is rk == ll.
+	ll, rk int64
 }
+
+// member: element i of the witness list equals the value.
+func (s *c18Scen) member(i int64) bool { return s.q && i == s.rk && s.rk < s.ll }
 
 func (s *c18Scen) String() string {
 	var parts []string
@@ -140,6 +148,9 @@ func (s *c18Scen) String() string {
 	}
 	if s.inBody {
 		parts = append(parts, fmt.Sprintf("entry.polygon=%s", s.cond), fmt.Sprintf("<entry.key>=%q", s.v))
+		if s.ll != 1 {
+			parts = append(parts, fmt.Sprintf("len(values)=%d, %d of them smaller than the value", s.ll, s.rk))
+		}
 		if s.p {
 			parts = append(parts, "search index = len(values)")
 		} else {
